@@ -37,13 +37,14 @@ struct Scenario
     int D;
     bool fine = false; // requests are issued by gated harness threads that also park at every mutex acquisition
     int connectFaults = 0; // the first n connection attempts fail at once (network unreachable)
+    std::vector<int> host; // per request: which of two hosts (authorities) it goes to; empty = all to the first
     int warm  = 0;     // the first `warm` requests are issued together and completed (default order) before the
                        // exploration starts: that many keep-alive connections are established and idle
     std::string str() const
     {
         std::string s = std::string(fine ? "[fine-grained issue] " : "") + (warm ? "[" + std::to_string(warm) + " connections established by earlier requests] " : std::string()) + (connectFaults ? "[first " + std::to_string(connectFaults) + " connect() fail with ENETUNREACH] " : std::string()) + "threads=" + std::to_string(threads) + " maxConn=" + std::to_string(limit) + " requests=[";
         for (int i = 0; i < n; ++i)
-            s += std::string(i ? "," : "") + kBehNames[beh[i]] + (timeoutMs[i] ? "/timeout" + std::to_string(timeoutMs[i]) : "");
+            s += std::string(i ? "," : "") + kBehNames[beh[i]] + (timeoutMs[i] ? "/timeout" + std::to_string(timeoutMs[i]) : "") + (host.empty() ? "" : host[i] ? "@hostB" : "@hostA");
         return s + "] D<=" + std::to_string(D);
     }
 };
@@ -96,7 +97,7 @@ struct ScriptedServer
         sockaddr_in sa;
         memset(&sa, 0, sizeof sa);
         sa.sin_family      = AF_INET;
-        sa.sin_addr.s_addr = htonl(INADDR_LOOPBACK);
+        sa.sin_addr.s_addr = htonl(INADDR_ANY); // (127.0.0.1 and 127.0.0.2 are two hosts for the client, one scripted server)
         // keep the harness's own descriptors out of the number range the client under test allocates from
         int hi          = fcntl(fd, F_DUPFD_CLOEXEC, 900);
         static auto cl0 = sim::real<int (*)(int)>("close");
@@ -328,7 +329,7 @@ static Exec run_one(const Scenario& sc, const std::vector<uint8_t>& prefix, vr::
         std::vector<std::thread>& issuerThreads = bag.v;
         std::vector<int> issuerActor;
         auto do_issue = [&](int tag) {
-            std::string url = "127.0.0.1:" + std::to_string(srv.port) + "/r/" + std::to_string(tag);
+            std::string url = std::string(!sc.host.empty() && sc.host[tag] ? "127.0.0.2:" : "127.0.0.1:") + std::to_string(srv.port) + "/r/" + std::to_string(tag);
             auto rb         = client.get(url);
             if (sc.timeoutMs[tag])
                 rb.timeout(std::chrono::milliseconds(sc.timeoutMs[tag]));
@@ -580,23 +581,30 @@ static Exec run_one(const Scenario& sc, const std::vector<uint8_t>& prefix, vr::
             }
         // a request parked in the client's own queue while a connection to that host sits idle is a lost wake-up
         {
-            bool idleConn = false;
-            for (auto& kv : client.pool.conns)
-                for (auto& c : kv.second)
-                    idleConn |= c->isIdle() && c->isConnected();
-            bool queued   = false;
-            int inQueue   = 0;
+            // (per host: the pool and the queues are keyed by the request's authority)
+            bool queuedBehindIdle = false;
+            int inQueue           = 0;
+            std::string whichHost;
             for (auto& kv : client.requestsQueues)
             {
                 std::shared_ptr<Http::Experimental::Connection::RequestData> data;
+                int here = 0;
                 while (kv.second.dequeue(data))
+                    ++here;
+                inQueue += here;
+                bool idleConn = false;
+                auto pc       = client.pool.conns.find(kv.first);
+                if (pc != client.pool.conns.end())
+                    for (auto& c : pc->second)
+                        idleConn |= c->isIdle() && c->isConnected();
+                if (here && idleConn)
                 {
-                    queued = true;
-                    ++inQueue;
+                    queuedBehindIdle = true;
+                    whichHost        = kv.first;
                 }
             }
-            if (queued && idleConn && x.ok)
-                ctx.violation("c15:queued-request-never-started-although-a-connection-is-idle", detail("\"x\":0"));
+            if (queuedBehindIdle && x.ok)
+                ctx.violation("c15:queued-request-never-started-although-a-connection-is-idle", detail("\"host\":" + vr::jstr(whichHost)));
             // everything is quiet: a request that is neither settled nor waiting in the client's queue has been handed
             // to a connection, so the server must have seen it
             int unsent = 0, firstUnsent = -1;
@@ -622,7 +630,7 @@ static Exec run_one(const Scenario& sc, const std::vector<uint8_t>& prefix, vr::
                 ctx.violation("c15:request-handed-to-a-connection-but-never-sent", detail("\"request\":" + std::to_string(firstUnsent) + ",\"unsent\":" + std::to_string(unsent) + ",\"in_client_queue\":" + std::to_string(inQueue) + dbg));
             }
         }
-        if (srv.peakOpen > sc.limit)
+        if (srv.peakOpen > sc.limit * (sc.host.empty() ? 1 : 2))
             ctx.violation("c15:more-connections-than-configured", detail("\"peak\":" + std::to_string(srv.peakOpen) + ",\"limit\":" + std::to_string(sc.limit)));
         // issuing threads still parked run to their end first
         for (int round = 0; round < 200; ++round)
@@ -817,6 +825,27 @@ int main(int argc, char** argv)
                 }
             }
         }
+    // two hosts through one client (limit 1 each): one host's connection is taken by a request that is never answered and
+    // has a request waiting behind it; the other host's requests must go on being handed over whenever its connection is free
+    for (int threads : { 1, 2 })
+        for (int sat = 0; sat < 2; ++sat) // which of the two hosts is the saturated one (the hosts' order in the client's tables is arbitrary)
+            for (int firstBusy = 0; firstBusy < 2; ++firstBusy)
+            {
+                if (!thorough && threads == 2 && firstBusy)
+                    continue;
+                Scenario s { threads, 1, 5, {}, {}, maxD };
+                // issue order: either the saturated host's two requests first, or the other host's first
+                int order[2][5] = { { 1, 1, 0, 0, 0 }, { 0, 0, 1, 1, 0 } }; // 1 = goes to the saturated host
+                for (int i = 0; i < 5; ++i)
+                {
+                    bool toSat = order[firstBusy][i] == 1;
+                    s.host.push_back(toSat ? sat : 1 - sat);
+                    bool firstOfSat = toSat && (i == 0 || order[firstBusy][i - 1] != 1);
+                    s.beh.push_back(firstOfSat ? B_NEVER : B_WHOLE);
+                    s.timeoutMs.push_back(0);
+                }
+                gScenarios.push_back(s);
+            }
     // requests that reuse connections established (and idle) before: several of them between two reactor wake-ups
     for (int threads : { 1, 2 })
         for (int limit : { 1, 2 })
